@@ -55,6 +55,10 @@ type Server struct {
 
 	// OnSQL is called for each SQL text before parsing (C15 marker scan).
 	OnSQL func(owner, kind, sql string)
+	// OnExecute is called for every statement executed through the extended
+	// protocol, with its bound parameters and whether the session is inside
+	// an explicit transaction.
+	OnExecute func(connID int, owner, sql string, params []Value, tx *Tx)
 
 	tm *pgtype.Map
 }
@@ -118,6 +122,19 @@ func (s *Server) CloseAll() {
 }
 
 // OpenTxOwners lists owners with an open transaction (for oracles).
+// OpenTxs returns the open explicit transactions (identity is the pointer).
+func (s *Server) OpenTxs() map[*Tx]int {
+	s.mu.Lock()
+	defer s.mu.Unlock()
+	out := map[*Tx]int{}
+	for id, se := range s.conns {
+		if se.tx != nil {
+			out[se.tx] = id
+		}
+	}
+	return out
+}
+
 func (s *Server) OpenTx() []string {
 	s.mu.Lock()
 	defer s.mu.Unlock()
@@ -863,6 +880,9 @@ func (se *session) doExecute(portalName string) ([]pgproto3.BackendMessage, erro
 	}
 	if _, ok := po.p.Stmt.(StmtCopy); ok {
 		return nil, &ErrUnsupported{"COPY through the extended protocol"}
+	}
+	if f := se.srv.OnExecute; f != nil {
+		f(se.id, se.owner, po.p.SQL, po.params, se.tx)
 	}
 	var res *ExecResult
 	err := se.withTx(func(tx *Tx) error {
